@@ -298,7 +298,7 @@ def cov_from_api(runs):
 
 # per-property configuration of engine A: list of (flavour, alphabet, oracles, quick depth, thorough depth)
 API_CHECKS = {
-    "C05": [("plain", "mut", "C05", 6, 9)],
+    "C05": [("plain", "mut", "C05", 6, 8)],
     "C06": [("plain", "frames", "C06", 6, 8), ("plain", "c07", "C06", 5, 7)],
     "C07": [("plain", "c07", "C07", 6, 9)],
     "C08": [("plain", "frames", "C08", 6, 8)],
